@@ -12,15 +12,15 @@ CHECKS = {
  'C01': ('model_checking', 'TLC model checking of Session.tla (family seq) + state-graph-covering scripts replayed on the real session + TLC trace validation of the recorded traces against Monitors.tla (C01 clauses) and Engine.tla',
          'Exhaustive on the bounded model (every inbound kind x sequence class x PossDup x gap fill/reset x application verdict in every reachable state); on the code, every (state class, event) pair of that graph is executed and each step judged by the C01 monitors.', '6 C01', SESSION_NOTE),
  'C03': ('model_checking', 'TLC model checking of Session.tla (family resend) + graph-covering scripts on the real session + TLC trace validation (C03 clauses)',
-         'Every ResendRequest range (empty, inverted, beyond the end, both end markers) over every sent history of the bounded model, with and without persistence; replayed bytes projected by an independent scanner.', '6 C03', SESSION_NOTE),
+         'Every ResendRequest range (empty, inverted, beyond the end, both end markers) over every sent history of the bounded model, with and without persistence, with the shipped dictionary configured (application messages starting / ending with a repeating group) and on the file store with RefreshOnLogon; replayed bytes projected by an independent scanner.', '6 C03', SESSION_NOTE),
  'C04': ('model_checking', 'TLC model checking of Session.tla (family seq, chunk sizes 0..3) + graph-covering scripts on the real session + TLC trace validation (C04 clauses)',
          'Every arrival order of replays, gap fills and live messages during recovery within the bounds, gaps detected on the Logon, with a TestRequest pending.', '6 C04', SESSION_NOTE),
  'C06': ('model_checking', 'TLC model checking of Session.tla (family gate) + graph-covering scripts on the real session + TLC trace validation (C06 clauses)',
          'Every single header defect class x message kind x sequence class in every logged-on state of the bounded model; reactions, RefSeqNum and reversed routing read from the real outbound bytes.', '6 C06', SESSION_NOTE),
- 'C07': ('model_checking', 'TLC model checking of Session.tla (family life, reset options) + graph-covering scripts on the real session + TLC trace validation (C07 clauses)',
-         'Reset options x role x BeginString; Logon with/without ResetSeqNumFlag, SequenceReset with lower/equal/higher NewSeqNo, logout, disconnect, reconnect in every reachable state of the bounded model.', '6 C07', SESSION_NOTE),
+ 'C07': ('model_checking', 'TLC model checking of Session.tla (family reset: reset options, ResetSeqTime, session schedule) + graph-covering scripts on the real session + TLC trace validation (C07 clauses); divergences followed up with probe scripts on the real engine',
+         'Reset options x ResetSeqTime x session schedule x role x BeginString; Logon with/without ResetSeqNumFlag, the ticker crossing ResetSeqTime / leaving / re-entering the schedule, SequenceReset with lower/equal/higher NewSeqNo, logout, disconnect, reconnect in every reachable state of the bounded model.', '6 C07', SESSION_NOTE),
  'C08': ('model_checking', 'TLC model checking of Session.tla (family life) + graph-covering scripts on the real session + TLC trace validation (C08 clauses)',
-         'Connects, timeouts, stop, sends while disconnected, disconnects with frames still buffered, both roles.', '6 C08', SESSION_NOTE),
+         'Connects, timeouts, stop, sends while disconnected, disconnects with frames still buffered, the session schedule ending and restarting (notSessionTime), both roles.', '6 C08', SESSION_NOTE),
  'C20': ('model_checking', 'TLC model checking of Session.tla (family keep) + graph-covering scripts on the real session + TLC trace validation (C20 clauses, timer arming through the EventTimer hook)',
          'All interleavings of inbound messages, sends and timer events in the four logged-on states of the bounded model; event order, not wall-clock time.', '6 C20', SESSION_NOTE + ' Real-time spacing on the run loop is not measured by this check.'),
  'C16': ('model_checking', 'TLC model checking of Store.tla + graph-covering operation scripts executed on memory/file/sqlite stores + TLC trace validation against Store!Apply',
@@ -35,32 +35,32 @@ CHECKS.update({
  'C10': ('model_checking', 'TLC model checking of FieldMap.tla + state-graph-covering API-call scripts (edge cover, 1-switch tours, random walks) executed on real quickfix.Message objects + TLC trace validation of every build (FieldMapTrace.tla)',
          'Every API call sequence of the bounded model (set/overwrite/remove/clear/set again/group set on header, body, trailer) with the built bytes judged by an independent scanner, ParseMessage and CopyInto after every call.', '6 C10', CODEC_NOTE),
  'C11': ('model_checking', 'TLC model checking of Wire.tla (section classification) + generated wire messages parsed by the real parser with no / application / transport+application dictionaries + TLC trace validation against the ground-truth field list (WireTrace.tla)',
-         'Well-formed skeletons over header/body/trailer tag subsets incl. XMLData with embedded SOH, dictionary-only header/trailer tags, user-defined tags; every kind of single corruption of BodyLength and of the leading field order.', '6 C11', CODEC_NOTE),
+         'Well-formed skeletons over header/body/trailer tag subsets incl. XMLData with embedded SOH (in the header and after body fields / groups), dictionary-defined repeating groups, dictionary-only header/trailer tags, user-defined tags; every kind of single corruption of BodyLength and of the leading field order.', '6 C11', CODEC_NOTE),
  'C12': ('model_checking', 'TLC model checking of Framer.tla (prefix monotonicity of the content-only framing function) + the real parser run over every stream under many chunk schedules and buffer sizes + TLC trace validation (one result per stream, equal to Framer!Frames)',
-         'All concatenations of up to 2 (quick) / 3 (thorough) pieces from 14 piece kinds, streams of well-formed messages separated by junk, streams larger than the 4096-byte buffer; one-byte reads, fixed sizes, every single cut, random double cuts, ragged reads; default and 16/32/64-byte buffers.', '6 C12', CODEC_NOTE),
+         'All concatenations of up to 2 (quick) / 3 (thorough) pieces from 14 piece kinds, streams of well-formed messages separated by junk, streams larger than the 4096-byte buffer, a large message followed by a long tail of small ones; one-byte reads, fixed sizes, every single cut, random double cuts, ragged reads, the end of stream reported after or together with the last bytes; default and 16/32/64-byte buffers.', '6 C12', CODEC_NOTE),
  'C14': ('model_checking', 'TLC model checking of Values.tla (round-trip laws) + bounded-exhaustive near-miss texts and value grids through the real Read/Write + TLC trace validation against the grammars, denotations and printers (ValuesTrace.tla)',
          'Every text up to length 4 (quick) / 5 (thorough) over 9-character near-miss alphabets for int and float, up to 2 for boolean, every single-position substitution/deletion/insertion of 8 valid timestamps; value grids for the Write direction.', '6 C14',
          CODEC_NOTE + ' Texts the FIX grammar is silent on (".5", more than 9 digits, leap second, year 0000) are unspecified and never judged. Binary rounding of floats is delegated to strconv.'),
- 'C17': ('fault_enumeration', 'crash-point hook in the file store -> directory snapshots -> synthesised process-crash and power-loss images reopened by the real store; every image judged by TLC with Store!Apply (CrashTrace.tla); SQL: injected statement failures through a wrapping database/sql driver',
+ 'C17': ('fault_enumeration', 'TLC model checking of FileStore.tla (write protocol under crashes: the as-built protocol lists its violating image classes, a repaired protocol satisfies C17) + crash-point hook in the file store -> directory snapshots -> synthesised process-crash and power-loss images reopened by the real store; every image judged by TLC with Store!Apply (CrashTrace.tla); the real operations\' crash-point sequences and violating image classes are compared with the model\'s (FileStoreTrace.tla); system-call audit (strace) that every file an operation wrote is synced after its last write; SQL: injected statement failures through a wrapping database/sql driver',
          'Operation histories as the session produces them (incl. counters at digit roll-overs) x every crash point of the interrupted operation x cut positions (class representatives in quick, every byte in thorough) x process crash / power loss; a further save after reopening.', '6 C17',
-         'Trusted: the placement of the crash-point hook for which bytes count as synced (a removed fsync whose hook line stays is not observed); file removals/creations treated as immediately durable; sqlite3 as the SQL back end.'),
+         'Trusted: the crash-point hook names for which bytes count as synced INSIDE an operation (that everything written is synced when the operation returns is checked on system calls); strace; file removals/creations treated as immediately durable; sqlite3 as the SQL back end.'),
  'C18': ('model_checking', 'TLC model checking of Schedule.tla (window semantics: symmetric, transitive, convex, separated) + the real TimeRange evaluated on configurations x calendar grid x pairs in five time zones + TLC trace validation of every answer (ScheduleTrace.tla)',
          'All start/end times from a 5-value grid, 7 weekday subsets, all 49 start/end day pairs (a seed-chosen third in quick); instants every boundary +-30 min over four weeks containing DST shifts; pairs within 8 days.', '6 C18',
          CODEC_NOTE + ' Instants within one second of an edge and civil times that do not exist / are ambiguous in the zone are not judged.'),
  'C13': ('model_checking', 'TLC model checking of Groups.tla (reading back what Flatten writes is the identity) + group instances written through the public API / hand-assembled wire forms, parsed with and without the defining dictionary, read back through the template + TLC trace validation (GroupsTrace.tla)',
-         'Synthetic templates up to depth 3 with entry counts 0/1/2, optional members on/off, nested counts 0/1/2, the group first/middle/last in the body and followed by another group; every group of every message of the shipped specifications (a seed-chosen subset of files in quick).', '6 C13', CODEC_NOTE),
+         'Synthetic templates up to depth 3 with entry counts 0/1/2/9/10/11, optional members on/off, nested counts 0/1/2/9/10, the group first/middle/last in the body, followed and preceded by another group; every group of every message of the shipped specifications (a seed-chosen subset of files in quick).', '6 C13', CODEC_NOTE),
  'C15': ('model_checking', 'generated conforming messages and single-defect mutations for the message types of the shipped specifications, validated by the real Validator under several settings; TLC re-derives each case\'s structural conformance from the specification documents (Dictionary.tla operators) and judges the answer (Validator.tla / ValidatorTrace.tla)',
-         'Per message type: required-only and optional-rich conforming instances; defects: unknown MsgType, required field missing (body, header), tag unknown to the dictionary (below and above 5000), tag not defined for the message, ill-formed value, value outside the enumeration, empty value, duplicate, header field inside the body, group count mismatch, group member order; settings: default and each relaxation.', '6 C15',
+         'Per message type: required-only and optional-rich conforming instances; defects: unknown MsgType, required field missing (body, header), tag unknown to the dictionary (below, at and above 5000), the same tolerated tag twice, tag not defined for the message, ill-formed value (garbage and near misses of the declared type), value outside the enumeration, empty value, duplicate, header field inside the body, group count mismatch (also a count without entries), group member order; settings: default and each relaxation.', '6 C15',
          CODEC_NOTE + ' Value well-formedness of generated conforming instances is the generator\'s; a member-order defect accepts any rejection; defects under a relaxing setting whose outcome the statement leaves open are not judged.'),
  'C19': ('model_checking', 'TLC model checking of Dictionary.tla (laws of the reachable-fields / required-tags / group-member operators) + the real datadictionary package loading shipped and generated specifications + TLC trace validation against documents exported by an independent XML walk (DictTrace.tla)',
          'The shipped specification files in full (all nine in thorough) and generated specifications with nested components and groups, optional/required members, dangling references, the required-through-optional-component shape.', '6 C19',
          CODEC_NOTE + ' The independent XML walk (lib/xmlwalk.py) is the ground truth for what a specification file says.'),
- 'C02': ('model_checking', 'TLC model checking of SendPath.tla (sender goroutines, session loop, resendMutex/sendMutex; the weakened protocols with a lock dropped must violate) + real sender goroutines against the real run loop with concurrent resend rounds, rejects and test requests, recorded through a recording store and the outbound channel + TLC evaluation of the C02 clauses on every recorded run (SendPathTrace.tla)',
-         'Every interleaving of 2-3 senders x 2 messages x loop actions in the model; on the code, recorded (not forced) schedules of 4-8 goroutines x 150-200 messages with 8-12 resend rounds per run, memory store in quick, memory/file/sqlite in thorough.', '6 C02',
-         'Trusted: the Go scheduler producing the races (a lost lock shows only if the race occurs in the recorded runs, or kills the process with a runtime fatal error, which is reported as a violation); causal ordering of store saves and channel receipts by one atomic counter.'),
- 'C05': ('model_checking', 'TLC model checking of Pair.tla (two Engine.tla machines, in-flight queues, sends, deliveries, cuts, reconnects, timer events, restarts; safety and completion after Stabilize(4)) + graph-covering and random fault schedules executed on two REAL sessions stepped against each other (memory stores; file stores with engine restarts) + TLC trace validation (PairTrace.tla: monitors and conformance of both engines)',
-         'Exhaustive on <= 3 sends, <= 2 cuts, <= 1 restart, <= 2 timer events, <= 3 messages in flight; on the code every edge of the cut-only graph plus hundreds (quick) / thousands (thorough) of random schedules with cuts, reconnects, heartbeats, peer timeouts and restarts.', '6 C05',
-         SESSION_NOTE + ' No real sockets or wall-clock timers: the link staying up for a few heartbeat intervals is the deterministic settling operator.'),
+ 'C02': ('model_checking', 'TLAPS proof of Numbering.tla (numbers handed out are exactly 1..next-1 for any number of processes) + TLC model checking of SendPath.tla (sender goroutines, session loop, resendMutex/sendMutex; three weakened protocols must violate) + forced schedules (a submission attempted at every application callback inside every replay, ResetSeqTime crossed while connected, bounded and unbounded ResendRequests, a reused Message object; memory and file store) + real sender goroutines against the real run loop with concurrent resend rounds, rejects and test requests, recorded through a recording store and the outbound channel + TLC evaluation of the C02 clauses on every recorded run (SendPathTrace.tla)',
+         'Unbounded for the numbering core (TLAPS); every interleaving of 2-3 senders x 2 messages x loop actions in the model; on the code, forced schedules at every callback inside a replay and recorded schedules of 4-8 goroutines x 150-200 messages with 8-12 resend rounds per run, memory store in quick, memory/file/sqlite in thorough.', '6 C02',
+         'Trusted: TLAPS 1.6 back ends; the Go scheduler for the stress part (a lock lost between two application callbacks shows only if the race occurs in the recorded runs, or kills the process with a runtime fatal error, which is reported as a violation); causal ordering of store saves and channel receipts by one atomic counter.'),
+ 'C05': ('model_checking', 'TLC model checking of Pair.tla (two Engine.tla machines, in-flight queues, sends, deliveries, cuts, reconnects, timer events, restarts; safety and completion after Stabilize(4)) + graph-covering and random fault schedules executed on two REAL sessions stepped against each other (memory stores; file stores with engine restarts) + TLC trace validation (PairTrace.tla: monitors and conformance of both engines) + timed schedules on the real Acceptor and Initiator over loopback TCP through a cutting proxy (PairLiveTrace.tla)',
+         'Exhaustive on <= 3 sends, <= 2 cuts, <= 1 restart, <= 2 timer events, <= 3 messages in flight; on the code every edge of the cut-only graph plus hundreds (quick) / thousands (thorough) of random schedules with cuts, reconnects, heartbeats, peer timeouts and restarts, also with ResendRequestChunkSize 2; 12 (quick) / 96 (thorough) timed runs of the real network engines with cuts, sends while the link is down and re-creations of the initiator on its file store.', '6 C05',
+         SESSION_NOTE + ' The forced schedules use no sockets or wall-clock timers (the link staying up is the deterministic settling operator); the TCP runs are timed, not forced (HeartBtInt 1 s, link up for up to 25 s).'),
 })
 NA = {}
 for l in open(V + '/properties.jsonl'):
